@@ -20,15 +20,16 @@ CORPUS = os.path.join(core.VERIF_DIR, "corpus", "pinned.json")
 
 def _seg(p, root, store_kind, store_dir, entry_opts=None, options=None, pre=(), style="eval", chdir=None, post_same=False, edit_revert=None):
     steps = []
-    accept = [p["pkg"]]
+    accept = [p["pkg"]] + gen.lazy_modules(p)
     for q in pre:
         accept.append(q["pkg"])
+        accept += gen.lazy_modules(q)
         steps.append({"write": gen.render(q), "how": "import", "modules": gen.import_order(q), "entry": _entry(q, "eval", None)})
     if edit_revert is not None:
         steps.append({"write": gen.render(edit_revert), "how": "import", "modules": gen.import_order(edit_revert), "entry": _entry(edit_revert, "eval", None)})
-        steps.append({"write": gen.render(p), "how": "reload", "modules": gen.import_order(p), "entry": _entry(p, style, entry_opts)})
+        steps.append({"write": gen.render(p), "how": "reload", "modules": gen.import_order(p), "lazy_modules": gen.lazy_modules(p), "entry": _entry(p, style, entry_opts)})
     else:
-        steps.append({"write": gen.render(p), "how": "import", "modules": gen.import_order(p), "entry": _entry(p, style, entry_opts)})
+        steps.append({"write": gen.render(p), "how": "import", "modules": gen.import_order(p), "lazy_modules": gen.lazy_modules(p), "entry": _entry(p, style, entry_opts)})
     if post_same:
         steps.append({"how": "none", "entry": _entry(p, style, entry_opts)})
     return {"mode": "impl", "root": root, "accept": accept, "steps": steps, "store": {"kind": store_kind, "dir": store_dir}, "options": options or {}, "chdir": chdir}
